@@ -49,7 +49,16 @@ def fibreSkeleton : List Func := [
     ⟨.call, "messageq_claim", .na, .na, []⟩,
     ⟨.call, "add_taint", .na, .na, ["if#1.then"]⟩,
     ⟨.plainWrite, "*queued_fibre", .na, .na, []⟩,
-    ⟨.call, "messageq_send", .na, .na, []⟩]⟩]
+    ⟨.call, "messageq_send", .na, .na, []⟩]⟩,
+  ⟨"fibre_eventq_claim", [
+    ⟨.call, "messageq_claim", .na, .na, []⟩,
+    ⟨.call, "add_taint", .na, .na, ["if#1.then"]⟩]⟩,
+  ⟨"fibre_eventq_send", [
+    ⟨.call, "messageq_send", .na, .na, []⟩,
+    ⟨.call, "fibre_run_atomic", .na, .na, []⟩]⟩,
+  ⟨"fibre_eventq_empty", [⟨.call, "messageq_empty", .na, .na, []⟩]⟩,
+  ⟨"fibre_eventq_receive", [⟨.call, "messageq_receive", .na, .na, []⟩]⟩,
+  ⟨"fibre_eventq_release", [⟨.call, "messageq_release", .na, .na, []⟩]⟩]
 
 /-- tie S for fibre.c: the extracted access sites of the wake-up path are the ones assumed -/
 theorem skeleton_matches_fibre : Librfn.Gen.Skeleton.fibre.funcs = fibreSkeleton := by decide
@@ -89,6 +98,26 @@ theorem isr_entry_touches_only_the_queue :
     (Librfn.Gen.Skeleton.fibre.funcs.find? (·.name == "fibre_run_atomic")).map (·.sites.map fun s => (s.kind, s.obj))
       = some [(.call, "messageq_claim"), (.call, "add_taint"), (.plainWrite, "*queued_fibre"), (.call, "messageq_send")] := by
   decide
+
+/-- functions of the unit that (transitively, inside the unit) reach a call of one of `targets` -/
+def reaches (u : CUnit) (targets : List String) : Nat → String → Bool
+  | 0, _ => false
+  | fuel + 1, fn =>
+    match u.funcs.find? (·.name == fn) with
+    | none => false
+    | some f => f.sites.any fun s => s.kind == .call && (targets.contains s.obj || reaches u targets fuel s.obj)
+
+/-- the sender-side (interrupt-context) entry points `fibre_run_atomic`, `fibre_eventq_claim`, `fibre_eventq_send`
+never reach the receiver-side queue functions (`messageq_receive`, `messageq_release`, `messageq_empty`), which
+touch the single-owner field `receivep`, nor the scheduler's list functions; the event is published
+(`messageq_send`) before the wake-up is posted (`fibre_run_atomic`) -/
+theorem isr_side_never_touches_receiver_state :
+    (["fibre_run_atomic", "fibre_eventq_claim", "fibre_eventq_send"].all fun fn =>
+        !reaches Librfn.Gen.Skeleton.fibre
+          ["messageq_receive", "messageq_release", "messageq_empty", "list_insert", "list_remove", "list_extract",
+           "list_insert_sorted", "list_contains", "list_empty", "list_peek", "make_runnable", "handle_atomic_runq"] 8 fn) = true ∧
+    (Librfn.Gen.Skeleton.fibre.funcs.find? (·.name == "fibre_eventq_send")).map (·.sites.map fun s => s.obj)
+      = some ["messageq_send", "fibre_run_atomic"] := by decide
 
 /-- payload accesses of the wake-up path lie inside the publish brackets: the fibre pointer is written after the
 claim and before the send, and read after the receive and before the release -/
